@@ -9,10 +9,11 @@ the "independent of buffer boundaries" half of the property.  Tree level: the st
 import PdfVerif.Lemmas.LexTokens
 import PdfVerif.Lemmas.StackParser
 import PdfVerif.Lemmas.Roundtrip
+import PdfVerif.Lemmas.SpecSound
 import PdfVerif.Props.C14
 
 namespace PdfVerif.Props.C01
-open PdfVerif PdfVerif.Lexer PdfVerif.Gen.LexTables PdfVerif.StackParser PdfVerif.Roundtrip
+open PdfVerif PdfVerif.Lexer PdfVerif.Gen.LexTables PdfVerif.StackParser PdfVerif.Roundtrip PdfVerif.SpecSound
 
 /-! ### integers -/
 
@@ -372,16 +373,16 @@ example : (ObjSpelling.mk [49, 50] [.ws 32] [48] [.ws 32] []
   have hnil : sepOK [] := by intro i hi; cases hi
   have hws : sepOK [.ws 32] := by intro i hi; simp at hi; subst hi; simp [SepItem.ok, isGapByte]
   have hnl : sepOK [.ws 10] := by intro i hi; simp at hi; subst hi; simp [SepItem.ok, isGapByte]
-  have hk : ∀ i ∈ [NameItem.raw 75], i.ok := by
-    intro i hi; simp at hi; subst hi; simp [NameItem.ok]; decide +kernel
+  have hk : nameOK [NameItem.raw 75] := by
+    intro i hi; simp at hi; subst hi; exact ⟨by simp [NameItem.ok]; decide +kernel, trivial⟩
   have hr : wf (.ref [55] [.ws 32] [51] [.ws 32] []) := by
-    simp only [wf, digitsOK]
+    simp only [wf, wfE, digitsOK]
     exact ⟨⟨by decide, by decide, by decide⟩, hws, by simp, ⟨by decide, by decide, by decide⟩, hws, by simp, hnil⟩
   have hr2 : wf (.ref [55] [.ws 32] [51] [.ws 32] [.ws 10]) := by
-    simp only [wf, digitsOK]
+    simp only [wf, wfE, digitsOK]
     exact ⟨⟨by decide, by decide, by decide⟩, hws, by simp, ⟨by decide, by decide, by decide⟩, hws, by simp, hnl⟩
   have hd : wf (.dict [] [([.raw 75], [.ws 32], .ref [55] [.ws 32] [51] [.ws 32] [])] []) := by
-    simp only [wf, wfEntries, valueEntries, keysOf]
+    simp only [wf, wfE, wfEntriesE, valueEntries, keysOf]
     refine ⟨hnil, ⟨hk, hws, by simp, hr, trivial⟩, hnil, by simp, ?_⟩
     intro k hk'; simp [nameValue, NameItem.value] at hk'; subst hk'; decide +kernel
   constructor
@@ -391,6 +392,25 @@ example : (ObjSpelling.mk [49, 50] [.ws 32] [48] [.ws 32] []
   · exact ⟨⟨by decide, by decide, by decide⟩, hws, by simp, ⟨by decide, by decide, by decide⟩, hnl, by simp, hws,
       by simp, hr2, rfl, hnil⟩
 
+/-- The executable ISO 32000-1 reader used as run-time oracle (`Spec/Syntax.spellcheck`) accepts EVERY
+    conformant spelled tree — odd hex digit counts included (`wfE false`) — behind any separator, and
+    returns the value the theorems are about (`specValue`: `intValue`, `realRat`, `nameValue`, `strValue`,
+    `pairUp`, …).  So the family of the round-trip theorems lies inside the oracle's domain and both
+    assign the same values; the tables of the tokenizer (`ESC_STRING`, white space, octal / hex digits) are
+    proved equal to the ISO ones on the way (`str_spec`, `hex_spec`, `eol_facts`, …). -/
+theorem C01_spec_complete (e : Bool) (pad : List SepItem) (hpad : sepOK pad) (t : STree) (h : wfE e t) :
+    Syntax.spellcheck (renderSep pad ++ bytesOf t) = some (specValue t) :=
+  spellcheck_complete pad hpad t h
+
+/-- …in particular `<2>` is accepted by the oracle with the ISO value 0x20 (where the code reads 0x02). -/
+example : Syntax.spellcheck [60, 50, 62] = some (.str (pairUp (hexDigitsOf [50]))) ∧ pairUp (hexDigitsOf [50]) = [32] := by
+  have hw : wfE false (.hex [50] []) := by
+    simp only [wfE]
+    refine ⟨?_, by simp, by intro i hi; cases hi⟩
+    intro c hc; simp at hc; subst hc; left; decide +kernel
+  have := C01_spec_complete false [] (by intro i hi; cases hi) (.hex [50] []) hw
+  exact ⟨by simpa [renderSep, bytesOf, specValue] using this, by decide +kernel⟩
+
 /-- Non-vacuity, with minimal delimiters, a comment and a generation number:
     `[-07/A#20(a\)b)<4 1><</K/V>>3 7 R]%c<LF>`. -/
 example : wf (.arr [] [.int [45] [48, 55] [], .name [.raw 65, .esc 50 48] [], .str [.raw 97, .esc 41, .raw 98] [],
@@ -399,38 +419,45 @@ example : wf (.arr [] [.int [45] [48, 55] [], .name [.raw 65, .esc 50 48] [], .s
   have hnil : sepOK [] := by intro i hi; cases hi
   have hws : sepOK [.ws 32] := by intro i hi; simp at hi; subst hi; simp [SepItem.ok, isGapByte]
   have h1 : wf (.int [45] [48, 55] []) := by
-    simp only [wf, signOK, digitsOK]
-    exact ⟨by decide, ⟨by decide, by decide, by decide⟩, hnil⟩
+    simp only [wf, wfE, signOK, digitsOK]
+    exact ⟨by simp, ⟨by decide, by decide, by decide⟩, hnil⟩
   have h2 : wf (.name [.raw 65, .esc 50 48] []) := by
-    simp only [wf]
+    simp only [wf, wfE]
     refine ⟨?_, hnil⟩
-    intro i hi; simp at hi; rcases hi with rfl | rfl <;> simp [NameItem.ok] <;> decide +kernel
+    intro i hi; simp at hi
+    rcases hi with rfl | rfl
+    · exact ⟨by simp [NameItem.ok]; decide +kernel, trivial⟩
+    · exact ⟨⟨by decide +kernel, by decide +kernel⟩, by simp [NameItem.nonzero]; decide +kernel⟩
   have h3 : wf (.str [.raw 97, .esc 41, .raw 98] []) := by
-    simp only [wf]
+    simp only [wf, wfE]
     refine ⟨?_, by simp [chainOK, StrItem.nextOK], by decide, hnil⟩
     intro i hi; simp at hi; rcases hi with rfl | rfl | rfl <;> simp [StrItem.ok] <;> decide +kernel
   have h4 : wf (.hex [52, 32, 49] []) := by
-    simp only [wf]
-    refine ⟨?_, ⟨1, by decide +kernel⟩, hnil⟩
-    intro c hc; simp at hc; rcases hc with rfl | rfl | rfl <;> decide +kernel
-  have hk : ∀ i ∈ [NameItem.raw 75], i.ok := by
-    intro i hi; simp at hi; subst hi; simp [NameItem.ok]; decide +kernel
+    simp only [wf, wfE]
+    refine ⟨?_, fun _ => ⟨1, by decide +kernel⟩, hnil⟩
+    intro c hc; simp at hc; rcases hc with rfl | rfl | rfl
+    · left; decide +kernel
+    · right; decide
+    · left; decide +kernel
+  have hk : nameOK [NameItem.raw 75] := by
+    intro i hi; simp at hi; subst hi; exact ⟨by simp [NameItem.ok]; decide +kernel, trivial⟩
   have hv : wf (.name [.raw 86] []) := by
-    simp only [wf]
+    simp only [wf, wfE]
     refine ⟨?_, hnil⟩
-    intro i hi; simp at hi; subst hi; simp [NameItem.ok]; decide +kernel
+    intro i hi; simp at hi; subst hi; exact ⟨by simp [NameItem.ok]; decide +kernel, trivial⟩
   have h5 : wf (.dict [] [([.raw 75], [], .name [.raw 86] [])] []) := by
-    simp only [wf, wfEntries, valueEntries, keysOf]
+    simp only [wf, wfE, wfEntriesE, valueEntries, keysOf]
     refine ⟨hnil, ⟨hk, hnil, ?_, hv, trivial⟩, hnil, by simp, ?_⟩
     · intro _ rest; simp [bytesOf, isDW]
     · intro k hk'; simp [nameValue, NameItem.value] at hk'; subst hk'; decide +kernel
   have h6 : wf (.ref [51] [.ws 32] [55] [.ws 32] []) := by
-    simp only [wf, digitsOK]
+    simp only [wf, wfE, digitsOK]
     exact ⟨⟨by decide, by decide, by decide⟩, hws, by simp, ⟨by decide, by decide, by decide⟩, hws, by simp, hnil⟩
   have hc : sepOK [.comment [99] 10] := by
     intro i hi; simp at hi; subst hi
     exact ⟨by intro x hx; simp at hx; subst hx; decide +kernel, Or.inl rfl⟩
-  simp only [wf, wfList]
+  simp only [wf, wfE, wfListE, wfEntriesE]
+  simp only [wf, wfE, wfListE, wfEntriesE] at h1 h2 h3 h4 h5 h6
   refine ⟨hnil, ⟨h1, ⟨h2, ⟨h3, ⟨h4, ⟨h5, ⟨h6, trivial, ?_⟩, ?_⟩, ?_⟩, ?_⟩, ?_⟩, ?_⟩, hc⟩
   all_goals intro _ _ rest
   all_goals simp [bytesList, bytesOf, isDW, isGapByte, endsReg] at *
